@@ -3,7 +3,9 @@
 // which are a deterministic function of (seed, rank).
 #include <ygm/comm.hpp>
 #include <ygm/collective.hpp>
+#include <ygm/detail/cereal_boost_json.hpp>
 #include <cstdio>
+#include <map>
 #include <string>
 #include <vector>
 
@@ -134,6 +136,26 @@ int main(int argc, char **argv) {
     std::string ws;
     for (auto &x : w) ws += x + "|";
     line("R bcast_" + std::to_string(root) + p + std::to_string(v) + " " + ws);
+  }
+  {
+    // bcast replaces whatever the non-root ranks held, also for boost::json containers (loaded element by element)
+    namespace bj = boost::json;
+    bj::object o = me == 0 ? bj::object{{"a", 1}, {"only_on_root", true}} : bj::object{{"a", 2}, {"stale", 3}};
+    ygm::bcast(o, 0, world);
+    line("R bcast_json_object" + p + bj::serialize(o));
+    bj::array ar = me == 0 ? bj::array{1, 2, 3} : bj::array{9, 9};
+    ygm::bcast(ar, 0, world);
+    line("R bcast_json_array" + p + bj::serialize(ar));
+    std::vector<bj::value> vv = me == 0 ? std::vector<bj::value>{bj::object{{"k", "v"}}, bj::array{true, nullptr}} : std::vector<bj::value>{bj::object{{"old", 1}}, bj::array{7}, 5};
+    ygm::bcast(vv, 0, world);
+    std::string sv;
+    for (auto &x : vv) sv += bj::serialize(x) + ";";
+    line("R bcast_json_vector" + p + sv);
+    std::map<std::string, long> mp = me == 0 ? std::map<std::string, long>{{"x", 1}} : std::map<std::string, long>{{"y", 2}, {"x", 9}};
+    ygm::bcast(mp, 0, world);
+    std::string sm;
+    for (auto &kv : mp) sm += kv.first + "=" + std::to_string(kv.second) + ";";
+    line("R bcast_std_map" + p + sm);
   }
   line("R is_same_yes" + p + std::to_string((int)ygm::is_same(42L, world)));
   line("R is_same_last" + p + std::to_string((int)ygm::is_same((long)(me == n - 1 ? 1 : 0), world)));
